@@ -11,18 +11,18 @@ Open Scope N_scope.
 
 (* an image is fine for the map [m]: what the scanner reads from it is a directory (up to a torn tail
    that is a strict prefix of some record) that opens to a store reading [m] *)
-Definition img_ok (img : fs) (m : bytes -> option bytes) : Prop := exists e, image_recovers img e m.
+Definition img_ok (img : fs) (m : bytes -> option bytes) : Prop := image_recovers img m.
 
 Definition step_safe_at (c : cfg) (s : st) (o : op) : Prop :=
   forall s0, rep s0 (s_dir s) ->
     let '(s', _, t) := step c s o in
+    trace_wf t ->
     (exists s1, fs_run s0 t = Some s1 /\ rep s1 (s_dir s')) /\
     forall img, image_of s0 t img -> img_ok img (abs s) \/ img_ok img (abs s').
 
 Lemma img_ok_rep s0 s : Inv s -> rep s0 (s_dir s) -> img_ok s0 (abs s).
 Proof.
-  intros (Hs & _ & Hh & _ & _ & (fa & Hfa & _) & _) Hr. exists (mkEntry 0 [] None), (s_dir s), 0, [], (enc_entry (mkEntry 0 [] None)).
-  split; [exact Hr|]. split; [reflexivity|]. split; [left; reflexivity|].
+  intros (Hs & _ & Hh & _ & _ & (fa & Hfa & _) & _) Hr. exists (s_dir s). split; [apply rep_reads; exact Hr|].
   apply recovers_log; [exact Hs| |exact Hh]. intros E. rewrite E in Hfa. discriminate.
 Qed.
 
@@ -35,21 +35,21 @@ Qed.
 
 Lemma silent_safe c s o : Inv s -> (let '(s', _, t) := step c s o in t = [] /\ s_dir s' = s_dir s /\ forall k, abs s' k = abs s k) -> step_safe_at c s o.
 Proof.
-  intros HI H s0 Hr. destruct (step c s o) as [[s' r] t]. destruct H as (-> & Hd & _). split.
+  intros HI H s0 Hr. destruct (step c s o) as [[s' r] t]. destruct H as (-> & Hd & _). intros _. split.
   - exists s0. rewrite Hd. auto.
   - intros img Him. apply image_nil in Him. subst. left. apply img_ok_rep; assumption.
 Qed.
 
 Lemma write_safe c s k v s1 l t : Inv s -> write c s k v = ROk (s1, l, t) ->
-  forall s0, rep s0 (s_dir s) ->
+  forall s0, rep s0 (s_dir s) -> trace_wf t ->
     (exists f1, fs_run s0 t = Some f1 /\ rep f1 (s_dir s1)) /\
     forall img, image_of s0 t img -> img_ok img (abs s) \/ img_ok img (fun k' => lastval (slog s1) k' None).
 Proof.
-  intros HI Hw s0 Hr.
+  intros HI Hw s0 Hr Hwf.
   destruct (write_ok c s k v HI) as (s1' & l' & t' & Hw' & _ & Hlog & _ & _ & _ & Hs1 & _ & Hh1 & _).
   rewrite Hw in Hw'. inversion Hw'; subst s1' l' t'. cbv zeta in Hlog.
-  destruct (write_crash_safe c s k v s1 l t s0 HI Hw Hr Hs1 Hh1 Hlog) as [Hrun Himg]. split; [exact Hrun|].
-  intros img Him. destruct (Himg img Him) as [H|H]; [left|right]; eexists; exact H.
+  destruct (write_crash_safe c s k v s1 l t s0 HI Hw Hr Hwf Hs1 Hh1 Hlog) as [Hrun Himg]. split; [exact Hrun|].
+  intros img Him. destruct (Himg img Him) as [H|H]; [left|right]; exact H.
 Qed.
 
 Theorem set_safe c s k v : Inv s -> step_safe_at c s (OSet k v).
@@ -58,7 +58,7 @@ Proof.
   unfold put in Hp. destruct (write c s k (Some v)) as [[[s1 l] t1]|e|e] eqn:Ew; try discriminate.
   assert (Hd : s_dir s' = s_dir s1 /\ t = t1).
   { destruct (iget (s_idx s1) k); [destruct (account_overwrite (s_stats s1) l0); [|discriminate]|]; inversion Hp; subst; split; reflexivity. }
-  destruct Hd as [Hd ->]. destruct (write_safe c s k (Some v) s1 l t1 HI Ew s0 Hr) as [Hrun Himg]. rewrite Hd. split; [exact Hrun|].
+  destruct Hd as [Hd ->]. intros Hwf. destruct (write_safe c s k (Some v) s1 l t1 HI Ew s0 Hr Hwf) as [Hrun Himg]. rewrite Hd. split; [exact Hrun|].
   intros img Him. destruct (Himg img Him) as [H|H]; [left; exact H|right]. unfold abs, slog. rewrite Hd. exact H.
 Qed.
 
@@ -69,7 +69,7 @@ Proof.
   assert (Hd : s_dir s' = s_dir s1 /\ t = t1).
   { destruct (iget (s_idx s1) k); [destruct (account_overwrite (s_stats s1) l0); [|discriminate]|]; inversion Hp; subst; split; reflexivity. }
   destruct Hd as [Hd ->].
-  destruct (write_safe c s k None s1 l t1 HI Ew s0 Hr) as [Hrun Himg]. rewrite Hd. split; [exact Hrun|].
+  intros Hwf. destruct (write_safe c s k None s1 l t1 HI Ew s0 Hr Hwf) as [Hrun Himg]. rewrite Hd. split; [exact Hrun|].
   intros img Him. destruct (Himg img Him) as [H|H]; [left; exact H|right]. unfold abs, slog. rewrite Hd. exact H.
 Qed.
 
@@ -90,7 +90,7 @@ Proof.
     - apply (ids_le_get_none _ m); [|lia]. apply nmax_ub in Em. unfold ids_le. rewrite Forall_forall in *. intros [j g] Hin. apply (Em j). apply in_map_iff. exists (j, g). auto.
     - destruct (s_dir s) as [|[j g] d']; [reflexivity|]. cbn in Em. destruct (nmax (map fst d')); discriminate. }
   destruct (rep_after_create s0 (s_dir s) a Hr Hn) as [Hcr Hr2]. rewrite (dir_set_new _ _ _ Hn) in *.
-  split.
+  intros _. split.
   - eexists. cbn [fs_run]. rewrite Hcr. split; [reflexivity|exact Hr2].
   - intros img Him. destruct Him as [t1 t2 E R|t1 f b1 b2 t2 E _ _].
     + destruct t1 as [|y t1]; cbn [app] in E.
@@ -121,21 +121,23 @@ Fixpoint state_after (c : cfg) (s : st) (ops : list op) (n : nat) : st :=
   end.
 
 Theorem script_crash_safe c : forall ops s s0,
-  Inv s -> run_ready c s ops -> rep s0 (s_dir s) ->
+  Inv s -> run_ready c s ops -> rep s0 (s_dir s) -> trace_wf (snd (run c s ops)) ->
   (forall s' o, Inv s' -> op_ready c s' o -> In o ops -> step_safe_at c s' o) ->
   (exists s1, fs_run s0 (snd (run c s ops)) = Some s1 /\ rep s1 (s_dir (fst (fst (run c s ops))))) /\
   forall img, image_of s0 (snd (run c s ops)) img ->
     exists n, (n <= length ops)%nat /\ img_ok img (abs (state_after c s ops n)).
 Proof.
-  induction ops as [|o ops IH]; intros s s0 HI Hready Hr Hsafe; cbn [run snd fst].
+  induction ops as [|o ops IH]; intros s s0 HI Hready Hr Hwf Hsafe; cbn [run snd fst] in *.
   - split; [exists s0; auto|]. intros img Him. apply image_nil in Him. subst. exists 0%nat. split; [lia|]. cbn. apply img_ok_rep; assumption.
   - destruct Hready as [Hr1 Hr2].
     pose proof (Hsafe s o HI Hr1 (or_introl eq_refl) s0 Hr) as Hstep.
     pose proof (step_refines c s o HI Hr1) as Href.
     destruct (step c s o) as [[s1 r] t] eqn:Es. cbn [fst] in Hr2. destruct Href as (HI1 & _ & _).
-    destruct Hstep as [(f1 & Hrun1 & Hrep1) Himg1].
-    destruct (IH s1 f1 HI1 Hr2 Hrep1 (fun s' o' H1 H2 H3 => Hsafe s' o' H1 H2 (or_intror H3))) as [(f2 & Hrun2 & Hrep2) Himg2].
     destruct (run c s1 ops) as [[s2 rs] ts] eqn:Er. cbn [snd fst] in *.
+    unfold trace_wf in Hwf. apply Forall_app in Hwf as [Hwf1 Hwf2].
+    destruct (Hstep Hwf1) as [(f1 & Hrun1 & Hrep1) Himg1].
+    specialize (IH s1 f1 HI1 Hr2 Hrep1). rewrite Er in IH. cbn [snd fst] in IH.
+    destruct (IH Hwf2 (fun s' o' H1 H2 H3 => Hsafe s' o' H1 H2 (or_intror H3))) as [(f2 & Hrun2 & Hrep2) Himg2].
     split.
     + exists f2. rewrite fs_run_app, Hrun1. auto.
     + intros img Him. destruct (image_app s0 t ts img f1 Hrun1 Him) as [H|H].
@@ -165,10 +167,10 @@ Proof.
   - apply IH. intros o' Ho'. apply H. right. exact Ho'.
 Qed.
 
-Theorem crash_safe_no_merge c ops s0 : no_merge ops -> rep s0 (s_dir init) ->
+Theorem crash_safe_no_merge c ops s0 : no_merge ops -> rep s0 (s_dir init) -> trace_wf (snd (run c init ops)) ->
   forall img, image_of s0 (snd (run c init ops)) img ->
     exists n, (n <= length ops)%nat /\ img_ok img (abs (state_after c init ops n)).
 Proof.
-  intros Hn Hr. apply script_crash_safe; [exact (proj1 init_inv)|apply no_merge_ready; exact Hn|exact Hr|].
+  intros Hn Hr Hwf. apply script_crash_safe; [exact (proj1 init_inv)|apply no_merge_ready; exact Hn|exact Hr|exact Hwf|].
   intros s' o HI _ Hin. apply nomerge_step_safe; [exact HI|apply Hn; exact Hin].
 Qed.
